@@ -35,12 +35,24 @@ impl<T: Sized> JoinHandle<T> {
     pub fn join(self) -> Option<T> {
         // The OS will change to futex value to 0 and then wake it when the thread finishes.
         unsafe {
+            #[cfg(tiny_std_verif)]
+            crate::verif_thread::point(
+                crate::verif_thread::JOIN_BEFORE_WAIT,
+                self.tsm.get_futex().as_ptr() as usize,
+            );
             futex_wait_fast(self.tsm.get_futex(), UNFINISHED);
             // The thread has completed, we have exclusive access to the memory.
             // Pack it into a box, then consume the box to get the value off the heap.
+            #[cfg(tiny_std_verif)]
+            crate::verif_thread::point(crate::verif_thread::JOIN_BEFORE_READ, self.tsm.0 as usize);
             let val = self.tsm.get_value::<T>().into_inner();
             // We have exclusive access so we don't need to run the destructor anymore
             // just dealloc and forget.
+            #[cfg(tiny_std_verif)]
+            crate::verif_thread::point(
+                crate::verif_thread::JOIN_BEFORE_DEALLOC,
+                self.tsm.0 as usize,
+            );
             self.tsm.dealloc();
             core::mem::forget(self);
             val
@@ -53,6 +65,8 @@ impl<T: Sized> Drop for JoinHandle<T> {
         unsafe {
             // We signal to the thread that it needs to dealloc this shared variable.
             // If it's already done, we're responsible for the cleanup.
+            #[cfg(tiny_std_verif)]
+            crate::verif_thread::point(crate::verif_thread::DROP_BEFORE_CAS, self.tsm.0 as usize);
             if self
                 .tsm
                 .get_sync()
@@ -61,7 +75,17 @@ impl<T: Sized> Drop for JoinHandle<T> {
             {
                 // The thread got its work done first, we need to wait for it to exit, signalled
                 // by the OS through the futex, then we know we have exclusive access to the memory.
+                #[cfg(tiny_std_verif)]
+                crate::verif_thread::point(
+                    crate::verif_thread::DROP_BEFORE_WAIT,
+                    self.tsm.get_futex().as_ptr() as usize,
+                );
                 futex_wait_fast(self.tsm.get_futex(), UNFINISHED);
+                #[cfg(tiny_std_verif)]
+                crate::verif_thread::point(
+                    crate::verif_thread::DROP_BEFORE_DEALLOC,
+                    self.tsm.0 as usize,
+                );
                 self.tsm.dealloc();
             }
         }
@@ -282,15 +306,21 @@ where
     let size = guard_sz + stack_sz;
 
     let tsm = unsafe { Tsm::init::<T>() };
+    #[cfg(tiny_std_verif)]
+    crate::verif_thread::point(crate::verif_thread::SPAWN_TSM, tsm.0 as usize);
     let df = move || {
         unsafe {
             // Run the function, if it panics, goto #[panic_handler].
             let func_ret = func();
             // The caller won't try to access the value until this thread exits.
+            #[cfg(tiny_std_verif)]
+            crate::verif_thread::point(crate::verif_thread::CHILD_BEFORE_WRITE, tsm.0 as usize);
             (*tsm.value_mut()) = Some(func_ret);
             // Signal that this thread is done with the value and it can be safely
             // consumed.
             // If it fails, it means the caller has dropped the JoinHandle, then we need to dealloc here.
+            #[cfg(tiny_std_verif)]
+            crate::verif_thread::point(crate::verif_thread::CHILD_BEFORE_CAS, tsm.0 as usize);
             if tsm
                 .get_sync()
                 .compare_exchange(false, true, Ordering::AcqRel, Ordering::Relaxed)
@@ -299,14 +329,31 @@ where
                 // We need to set this thread's TID_ADDRESS ptr to null, or else
                 // the kernel will try to update the value, and futex_wake on it, which will
                 // cause a segfault.
+                #[cfg(tiny_std_verif)]
+                crate::verif_thread::point(
+                    crate::verif_thread::CHILD_BEFORE_SET_TID,
+                    tsm.0 as usize,
+                );
                 sc::syscall!(SET_TID_ADDRESS, 0);
+                #[cfg(tiny_std_verif)]
+                crate::verif_thread::point(
+                    crate::verif_thread::CHILD_BEFORE_TSM_DEALLOC,
+                    tsm.0 as usize,
+                );
                 tsm.dealloc();
             }
             // Also dealloc the local storage for this thread, nobody needs that anymore
+            #[cfg(tiny_std_verif)]
+            crate::verif_thread::point(
+                crate::verif_thread::CHILD_BEFORE_TLS_DEALLOC,
+                get_tls_ptr() as usize,
+            );
             dealloc(get_tls_ptr().cast(), Layout::new::<ThreadLocalStorage>());
         }
     };
     let (start_fn, fn_caller) = unsafe { onwed_split_fn_once(df) };
+    #[cfg(tiny_std_verif)]
+    crate::verif_thread::point(crate::verif_thread::SPAWN_CLOSURE, fn_caller);
     // We need to double box here because
     // 1. We need to access through a box, because we can't cast into a *mut dyn FnOnce(), because
     // fat pointer.
@@ -324,6 +371,8 @@ where
             0,
         )?
     };
+    #[cfg(tiny_std_verif)]
+    crate::verif_thread::point(crate::verif_thread::SPAWN_STACK, map_ptr);
     // Stack grows downward
     let mut stack = map_ptr + size;
     // shift down a bit, unsure exactly why, doesn't really matter if we do or don't actually
@@ -345,6 +394,12 @@ where
     unsafe {
         (*tls).self_addr = tls as usize;
     }
+    #[cfg(tiny_std_verif)]
+    crate::verif_thread::point(crate::verif_thread::SPAWN_TLS, tls as usize);
+    #[cfg(tiny_std_verif)]
+    crate::verif_thread::point(crate::verif_thread::SPAWN_BEFORE_CLONE, unsafe {
+        tsm.get_futex().as_ptr() as usize
+    });
     #[expect(clippy::cast_possible_truncation)]
     unsafe {
         __clone(
@@ -358,6 +413,8 @@ where
             stack_sz,
         );
     }
+    #[cfg(tiny_std_verif)]
+    crate::verif_thread::point(crate::verif_thread::SPAWN_AFTER_CLONE, tsm.0 as usize);
     Ok(JoinHandle {
         tsm,
         _pd: PhantomData,
@@ -381,6 +438,8 @@ unsafe extern "C" fn start_fn<F: FnOnce()>(ptr: *mut StartArgs) -> i32 {
     let func = args.start_arg as *mut F;
     let boxed_run = Box::from_raw(func);
     (boxed_run)();
+    #[cfg(tiny_std_verif)]
+    crate::verif_thread::point(crate::verif_thread::CHILD_BEFORE_EPILOGUE, 0);
     0
 }
 
@@ -581,10 +640,14 @@ pub fn on_panic(info: &core::panic::PanicInfo) -> ! {
         // The main thread does not have stack_info set
         if let Some(stack_dealloc) = stack_info.thread_stack_info() {
             // Dealloc tls, we're done with it, we're panicking so just clean everything up.
+            #[cfg(tiny_std_verif)]
+            crate::verif_thread::point(crate::verif_thread::PANIC_BEFORE_TLS_DEALLOC, tls as usize);
             dealloc(tls.cast(), Layout::new::<ThreadLocalStorage>());
             let map_ptr = stack_dealloc.stack_addr;
             let map_len = stack_dealloc.stack_sz;
             let tsm = stack_dealloc.tsm;
+            #[cfg(tiny_std_verif)]
+            crate::verif_thread::point(crate::verif_thread::PANIC_BEFORE_CAS, tsm.0 as usize);
             let should_dealloc = tsm
                 .get_sync()
                 .compare_exchange(false, true, Ordering::AcqRel, Ordering::Relaxed)
@@ -592,13 +655,25 @@ pub fn on_panic(info: &core::panic::PanicInfo) -> ! {
             if should_dealloc {
                 // The caller has stopped waiting for a response from this thread.
                 // We're responsible from cleaning up the shared memory.
+                #[cfg(tiny_std_verif)]
+                crate::verif_thread::point(
+                    crate::verif_thread::PANIC_BEFORE_SET_TID,
+                    tsm.0 as usize,
+                );
                 sc::syscall!(SET_TID_ADDRESS, 0);
+                #[cfg(tiny_std_verif)]
+                crate::verif_thread::point(
+                    crate::verif_thread::PANIC_BEFORE_TSM_DEALLOC,
+                    tsm.0 as usize,
+                );
                 tsm.dealloc();
             }
             // We need to be able to unmap the thread's own stack, we can't use the stack anymore after that
             // so it needs to be done in asm.
             // With the stack_ptr and stack_len in rdi/x0 and rsi/x1, respectively we can call mmap then
             // exit the thread
+            #[cfg(tiny_std_verif)]
+            crate::verif_thread::point(crate::verif_thread::PANIC_BEFORE_EPILOGUE, map_ptr);
             #[cfg(target_arch = "x86_64")]
             core::arch::asm!(
             // Call munmap, all args are provided in this macro call.
